@@ -7,7 +7,11 @@ Open Scope bool_scope. Open Scope Z_scope.
 
 Definition TCR := 0xffff80. Definition TCSR := 0xffff82. Definition TCNT := 0xffff88.
 
-Definition timer_data_ok (a : Z) : bool := run_data_ok a || (a =? TCR).
+(* byte stores to TCR, TCORA, TCORB and TCNT are within the claim (TCSR writes are not) *)
+Definition timer_reg (a : Z) : bool := (a =? TCR) || (a =? 0xffff84) || (a =? 0xffff86) || (a =? TCNT).
+Definition timer_data_ok (a : Z) : bool := run_data_ok a || timer_reg a.
+Definition is_timer_store (i : insn) (s : cpu) : bool :=
+  match i with IMovStore SB _ e => timer_reg (ea_addr SB s e) | _ => false end.
 Definition is_tcr_store (i : insn) (s : cpu) : bool :=
   match i with IMovStore SB _ e => ea_addr SB s e =? TCR | _ => false end.
 
@@ -24,8 +28,10 @@ Fixpoint ref_run_t (fuel : nat) (s : cpu) (sync : Z) (t : tmr) (q : list Z) : op
   match fuel with
   | O => None
   | S k =>
-    (* pending requests are only claimed while they stay masked *)
-    if negb (flag (ccr s) fI) && negb (match q with [] => true | _ => false end) then None else
+    (* instruction boundary: the oldest pending request is accepted when I is clear (C10's reference) *)
+    match boundary_ref s q with
+    | None => None
+    | Some (s, q) =>
     let one : option (option (cpu * Z * bool)) :=
       if is_mes_call s then
         (if dom_mes s then Some (option_map (fun s' => (s', mes_charge s, false)) (mes_ref s)) else None)
@@ -33,7 +39,7 @@ Fixpoint ref_run_t (fuel : nat) (s : cpu) (sync : Z) (t : tmr) (q : list Z) : op
         match ref_decode s with
         | Some (IUnimplemented, len) => if code_ok s len then Some None else None
         | Some (i, len) =>
-          if exec_dom timer_data_ok i len s && (negb (touches_timer i s) || is_tcr_store i s) then
+          if exec_dom timer_data_ok i len s && (negb (touches_timer i s) || is_timer_store i s) then
             match sem_ref i len s with Some s' => Some (Some (s', charge_ref i len s, is_tcr_store i s)) | None => None end
           else None
         | None => None
@@ -64,6 +70,7 @@ Fixpoint ref_run_t (fuel : nat) (s : cpu) (sync : Z) (t : tmr) (q : list Z) : op
           end
         end
       end
+    end
     end
   end.
 
